@@ -58,6 +58,9 @@ def build_pre(desc):
             blocks[n] = BasicBlock(n, tuple(t), (t[be],) if be >= 0 else ())
         g = SCFG(blocks)
         return g, g
+    if desc["space"] == "C":
+        g = build_c(desc)
+        return g, g
     g = build_scfg(desc)
     for s in STAGES[: desc["stage"]]:
         getattr(g, s)()
@@ -175,6 +178,171 @@ def arc_walk_check(orig, top):
 # ---------------------------------------------------------------------------
 
 
+# space C: a branching synthetic block as the predecessor, built directly (one inductive step from a state that the
+# pipeline only reaches on large graphs: several arcs of one value-table block re-targeted in one call, names whose
+# sorted order differs from their position, name-generator indices crossing from one to two digits)
+
+C_NAME_POOL = ["b1", "m_block_2", "z1", "loop_region_0"]
+C_TYPES = ["SyntheticHead", "SyntheticExitBranch", "SyntheticBranch"]
+
+
+def build_c(desc):
+    from numba_scfg.core.datastructures.scfg import SCFG, NameGenerator
+    from numba_scfg.core.datastructures import basic_block as bb
+
+    T = list(desc["targets"])
+    table = {int(v): T[i] for v, i in desc["table"].items()}
+    var = "__scfg_control_var_0__"
+    blocks = {}
+    vals = sorted(table)
+    # entry chain e0 -> (a0, e1), e1 -> (a1, a2) ...: one assignment block per value
+    for j, v in enumerate(vals):
+        last = j == len(vals) - 1
+        if not last:
+            nxt = f"asg{vals[j + 1]}" if j == len(vals) - 2 else f"e{j + 1}"
+            blocks[f"e{j}"] = bb.BasicBlock(f"e{j}", (f"asg{v}", nxt))
+        blocks[f"asg{v}"] = bb.SyntheticAssignment(f"asg{v}", ("X",), (), {var: v})
+    blocks["X"] = getattr(bb, desc["type"])("X", tuple(T), (), var, dict(table))
+    for t in T:
+        blocks[t] = bb.BasicBlock(t, ())
+    c = desc.get("counter_start") or 0
+    kinds = {k: c for k in ("synth_asign", "synth_head", "synth_tail", "synth_exit", "synth_fill", "synth_return", "control")} if c else {}
+    return SCFG(blocks, name_gen=NameGenerator(kinds=kinds))
+
+
+def space_c(k):
+    """k targets; their names: an ordered selection from the pool; table: a surjection values -> positions."""
+    m_max = 3
+    NM = [z3.Int(f"nm{i}") for i in range(k)]
+    TB = [z3.Int(f"tb{v}") for v in range(m_max)]  # position of value v, -1 = value unused
+    ty, c = z3.Int("type"), z3.Int("counter")
+    cs = [ty >= 0, ty < len(C_TYPES), z3.Or(c == 0, c == 8, c == 9), z3.Distinct(*NM)]
+    for x in NM:
+        cs += [x >= 0, x < len(C_NAME_POOL)]
+    for v in range(m_max):
+        cs += [TB[v] >= (-1 if v >= k else 0), TB[v] < k]
+        if v:
+            cs.append(z3.Implies(TB[v - 1] == -1, TB[v] == -1))
+    for pos in range(k):
+        cs.append(z3.Or([TB[v] == pos for v in range(m_max)]))
+    return z3.And(cs), [ty, c, NM[0], NM[1]], {"k": k, "NM": NM, "TB": TB, "ty": ty, "c": c}
+
+
+def realise_c(E, aux):
+    k = aux["k"]
+    T = [C_NAME_POOL[E.realize(x)] for x in aux["NM"]]
+    tb = {}
+    for v, x in enumerate(aux["TB"]):
+        p = E.realize(x)
+        if p >= 0:
+            tb[str(v)] = p
+    return {"space": "C", "targets": T, "table": tb, "type": C_TYPES[E.realize(aux["ty"])], "counter_start": E.realize(aux["c"])}
+
+
+def c_ops(desc):
+    """every operation with the branching block as the predecessor and an ordered selection of its targets as S"""
+    T = desc["targets"]
+    Ss = [list(p) for r in range(1, len(T) + 1) for p in itertools.permutations(T, r)]
+    ops = []
+    for prim in ("control", "tail", "exit", "fill", "return"):
+        for S in Ss:
+            ops.append({"prim": prim, "P": ["X"], "S": S})
+            if prim in ("control", "tail") and len(S) < len(T):
+                ops.append({"prim": prim, "P": ["X", "e0"] if len(desc["table"]) > 1 else ["X"], "S": S})
+    for S in Ss:
+        if len(S) <= 2:
+            ops.append({"prim": "join_tails_and_exits", "P": ["X"], "S": S})
+    return ops
+
+
+def harness_c(E, ctx, aux):
+    desc = realise_c(E, aux)
+    ctx.current = desc
+    ctx.sample(desc)
+    ctx.feature("pre-state-has:" + desc["type"])
+    n = 0
+    for op in c_ops(desc):
+        fails, rer = check(desc, [op])
+        n += 1
+        if rer:
+            ctx.nontrivial += 1
+            ctx.feature("rerouted:" + op["prim"])
+        for f in fails:
+            ctx.fail(f["kind"], f["signature"], {"pre": desc, "ops": [op]}, f["detail"])
+        if op["prim"] == "control" and rer and not fails:
+            # a second insertion re-targets the fresh head / the first assignment block
+            for op2 in ({"prim": "tail", "P": ["new_0"], "S": list(op["S"])}, {"prim": "control", "P": ["new_0"], "S": list(op["S"])}):
+                fails2, rer2 = check(desc, [op, op2])
+                n += 1
+                if rer2:
+                    ctx.feature("seq:" + op2["prim"])
+                for f in fails2:
+                    ctx.fail(f["kind"], f["signature"], {"pre": desc, "ops": [op, op2]}, f["detail"])
+    ctx.evaluations += n
+
+
+def edit_step(desc, ops, want):
+    """For C01 / C06: apply the operation sequence to the pre-state and report only what those properties state:
+    want = "paths": the arcs between original blocks are preserved by control-block insertions (C01);
+    want = "tables": value tables name exactly the block's successors and every control variable is set and in range
+    when its branching block is reached (C06)."""
+    top, lvl = build_pre(desc)
+    orig = leaf_orig(top)
+    fails = []
+    for k, op in enumerate(ops):
+        pre = snapshot(top)
+        if any(p not in lvl.graph for p in op["P"]) or not in_domain(pre, list(lvl.graph), op):
+            return fails
+        try:
+            apply_op(lvl, op, k)
+        except Exception as e:
+            fails.append({"kind": "edit-step", "signature": f"edit-step:{op['prim']}:{exc_signature(e)}", "detail": repr(e)[:200]})
+            return fails
+    if want == "tables":
+        for e in check_tables(top):
+            fails.append({"kind": "edit-step", "signature": "edit-step:" + str(e[0]), "detail": repr(e)[:300]})
+    if all(op["prim"] == "control" for op in ops):
+        for e in arc_walk_check(orig, top):
+            ctrl = e[0] in ("unset", "range", "table-target")
+            if (want == "tables" and ctrl) or (want == "paths" and not ctrl):
+                fails.append({"kind": "edit-step", "signature": "edit-step:" + ("control-variable:" if ctrl else "paths:") + str(e[0]), "detail": repr(e)[:300]})
+    out, seen = [], set()
+    for f in fails:
+        if f["signature"] not in seen:
+            seen.add(f["signature"])
+            out.append(f)
+    return out
+
+
+def edit_step_jobs(want):
+    """jobs over space C for the properties that rest on the same edit primitives"""
+    def harness(E, ctx, aux):
+        desc = realise_c(E, aux)
+        ctx.current = {"kind": "edit-step", "pre": desc, "ops": []}
+        n = 0
+        for op in c_ops(desc):
+            if want == "paths" and op["prim"] != "control":
+                continue
+            seqs = [[op]]
+            if op["prim"] == "control":
+                seqs.append([op, {"prim": "control", "P": ["new_0"], "S": list(op["S"])}])
+            for ops in seqs:
+                fs = edit_step(desc, ops, want)
+                n += 1
+                for f in fs:
+                    ctx.fail(f["kind"], f["signature"], {"kind": "edit-step", "pre": desc, "ops": ops}, f["detail"])
+        ctx.evaluations += n
+        ctx.nontrivial += 1
+        ctx.feature("edit-step-pre-states")
+        ctx.sample({"kind": "edit-step", "pre": desc}, cap=1)
+
+    return [Job(f"edit-step-branching-synthetic-predecessor-{k}-targets", (lambda k=k: space_c(k)), harness,
+                bounds={"space": "C (one edit step from a directly built mid-pipeline state)", "targets": k, "target_names": "ordered selections from " + repr(C_NAME_POOL),
+                        "value_table": "every surjection of <= 3 values onto the targets", "block_types": C_TYPES, "name_generator_counters_start_at": [0, 8, 9],
+                        "operations": "insert_block_and_control_blocks (and, for tables, every insert_* / join primitive) with every ordered selection of the targets as successors; control insertion twice in a row"},
+                budget_s=600) for k in (2, 3)]
+
+
 def apply_op(lvl, op, k):
     new = f"new_{k}"
     prim = op["prim"]
@@ -236,7 +404,10 @@ def check_one(top, lvl, op, k, fails, tag):
                 exp = expect_insert(T, B, S, new) if S else T + (new,)
                 if exp != T:
                     rerouted += 1
-                if T2 != exp:
+                # when several arcs merge into the new block, its position among the remaining successors is not
+                # prescribed by the property; their own order is, and so is a single occurrence of the new block
+                rest = tuple(t for t in exp if t != new)
+                if tuple(t for t in T2 if t != new) != rest or T2.count(new) != exp.count(new) or (len(exp) == len(T) and T2 != exp):
                     fail("predecessor-targets:" + t0, (n, T, S, T2, exp))
                 if B2 != B:
                     fail("predecessor-backedges:" + t0, (n, B, B2))
@@ -547,6 +718,11 @@ def jobs(tier):
             bounds={"space": "A", "blocks": 3, "slots": 2, "P<=": 2, "S<=": 2, "max_edges": 4 if tier == "quick" else None, "sequences": "single operations"}, budget_s=1800),
         Job("B-N3-restructured-levels", lambda: space_b(3), harness_b, bounds={"space": "B (S5)", "blocks": 3, "stages": [2, 3], "level_size<=": 6}, budget_s=900),
     ]
+    for k in (2, 3):
+        js.append(Job(f"C-branching-synthetic-predecessor-{k}-targets", (lambda k=k: space_c(k)), harness_c,
+                      bounds={"space": "C", "targets": k, "target_names": "ordered selections from " + repr(C_NAME_POOL), "value_table": "every surjection of <= 3 values onto the targets",
+                              "block_types": C_TYPES, "name_generator_counters_start_at": [0, 8, 9], "S": "every ordered selection of the targets",
+                              "sequences": "control insertion followed by a second insertion behind the new head"}, budget_s=900))
     if tier == "thorough":
         js.append(Job("B-N4-restructured-levels", lambda: space_b(4), harness_b, bounds={"space": "B (S5)", "blocks": 4, "stages": [2, 3], "level_size<=": 6}, budget_s=3000))
     return js
